@@ -96,7 +96,14 @@ pub(crate) fn make_versions(cx: &mut Cx, kind: Kind, n: usize) -> Versions {
         }
         Kind::Txs => {
             let key = gen::tx_key(&owner.public_key());
-            let pool: Vec<Transaction> = (0..4).map(|_| gen::transaction(&mut cx.rng, &owner)).collect();
+            let mut pool: Vec<Transaction> = (0..4).map(|_| gen::transaction(&mut cx.rng, &owner)).collect();
+            // twins: the same owner, parents, content and outputs under another signature - distinct transactions
+            // (which of them is authentic is for the reader of the union to decide, the union must keep both)
+            for i in 0..2 {
+                let mut twin = pool[i].clone();
+                twin.signature = gen::bls_sk(&mut cx.rng).sign(b"twin");
+                pool.push(twin);
+            }
             let mut bytes: Vec<Vec<u8>> = vec![];
             // one holder in four of the multi-version cases returns something that is not a transaction record at all
             let rubbish_at = if n >= 2 && cx.rng.gen_bool(0.25) { Some(cx.rng.gen_range(0..n)) } else { None };
@@ -153,8 +160,10 @@ pub(crate) fn is_merge(v: &Versions, seen: &BTreeSet<usize>, got: &[u8]) -> bool
     match v.kind {
         Kind::Chunk => false,
         Kind::Txs => {
-            let want: BTreeSet<Transaction> = seen.iter().flat_map(|i| try_deserialize_record::<Vec<Transaction>>(&rec(&v.bytes[*i])).unwrap_or_default()).collect();
-            let have: BTreeSet<Transaction> = try_deserialize_record::<Vec<Transaction>>(&rec(got)).unwrap_or_default().into_iter().collect();
+            // sets of the transactions' encodings, not of the values: the oracle must not lean on the type's own ordering
+            let enc = |t: Transaction| rmp_serde::to_vec(&t).unwrap_or_default();
+            let want: BTreeSet<Vec<u8>> = seen.iter().flat_map(|i| try_deserialize_record::<Vec<Transaction>>(&rec(&v.bytes[*i])).unwrap_or_default()).map(enc).collect();
+            let have: BTreeSet<Vec<u8>> = try_deserialize_record::<Vec<Transaction>>(&rec(got)).unwrap_or_default().into_iter().map(enc).collect();
             !want.is_empty() && want == have
         }
         Kind::Reg => {
